@@ -80,6 +80,10 @@ NICE = [0.0, 1.0, 2.0, -1.0, 3.0, 4.0, 5.0, -2.0, -5.0, 10.0, -10.0, 0.5, -0.5, 
 
 def loguniform(d, lo=-3.0, hi=5.0, signed=True):
     m = r6(10.0 ** d.uniform(lo, hi))
+    if d.chance(1, 8):
+        # mostly six significant digits (readable cases); one value in eight carries all the digits of a double, so that
+        # whatever silently keeps only six, nine or twelve digits of a number is seen
+        m = m * (1.0 + d.int(1, 9) * 1.0123456789e-7)
     if signed and d.bool():
         m = -m
     return m
